@@ -33,18 +33,40 @@ func runDrain(cfg *hx.RunCfg) error {
 		wg.Add(1)
 		go func(i int, sp spec) {
 			defer wg.Done()
-			got, same, eof, _, err := slowDrainOnce(sp.addr, "128KB", sp.n, 1, sp.dir, 40*time.Second)
+			// the limit is configured as a FRACTION of the unit: 0.125MB = 128 KiB/s
+			got, same, eof, took, err := slowDrainOnce(sp.addr, "0.125MB", sp.n, 1, sp.dir, 40*time.Second)
 			errs[i] = err
 			d := 0
 			if sp.dir == "down" {
 				d = 1
 			}
-			cases[i] = fmt.Sprintf("CDrain %d %d %d %d %s %s", d, 128*1024, sp.n, got, hx.Bool(same), hx.Bool(eof))
+			cases[i] = fmt.Sprintf("CDrain %d %s %d %d %s %s %d", d, hx.HxS("0.125MB"), sp.n, got, hx.Bool(same), hx.Bool(eof), took.Milliseconds())
 		}(i, sp)
+	}
+	// stcp visitor behind a batching relay, backend speaks first, stream idle beyond the handshake deadline
+	var vcases [][]string
+	var verrs []error
+	var vmu sync.Mutex
+	for k, v := range []struct{ enc, comp bool }{{false, false}, {true, true}} {
+		wg.Add(1)
+		go func(k int, enc, comp bool) {
+			defer wg.Done()
+			cs, err := visitorOnce(fmt.Sprintf("127.0.1.%d", 2+k), enc, comp, 10500*time.Millisecond, cfg.Seed*10+int64(k))
+			vmu.Lock()
+			vcases = append(vcases, cs)
+			verrs = append(verrs, err)
+			vmu.Unlock()
+		}(k, v.enc, v.comp)
 	}
 	wg.Wait()
 	var out []string
 	var fails []map[string]string
+	for i, cs := range vcases {
+		if verrs[i] != nil {
+			fails = append(fails, map[string]string{"key": "visitor-setup", "what": "stcp visitor scenario could not be set up: " + verrs[i].Error(), "case": "visitorOnce"})
+		}
+		out = append(out, cs...)
+	}
 	for i, c := range cases {
 		if errs[i] != nil {
 			fails = append(fails, map[string]string{"key": "drain-setup:" + specs[i].dir, "what": "write-and-close over tcpMux with a slow receiver: " + errs[i].Error(), "case": c})
@@ -55,6 +77,7 @@ func runDrain(cfg *hx.RunCfg) error {
 	cf := &hx.CaseFile{Imports: imports, Typ: "case", Cases: out,
 		Tail: "Definition M := Eval vm_compute in mismatches check_case cases.\nPrint M.\n" +
 			"Definition NDRAIN := Eval vm_compute in count_if is_drain cases.\nPrint NDRAIN.\n" +
+			"Definition NVISITOR := Eval vm_compute in count_if is_visitor cases.\nPrint NVISITOR.\n" +
 			"Definition YAMUXCFGOK := Eval vm_compute in (if yamux_cfg_today_ok then 1 else 0 : Z).\nPrint YAMUXCFGOK.\n" +
 			"Definition YAMUXSAFERATE := Eval vm_compute in yamux_safe_rate.\nPrint YAMUXSAFERATE.\n" +
 			"Definition YAMUXTIMEOUTMS := Eval vm_compute in yamux_default_close_timeout_ms.\nPrint YAMUXTIMEOUTMS.\n" +
